@@ -1,8 +1,10 @@
 """Deterministic simulation of the real `EngineRunner` (openpectus/engine/engine_runner.py) for C27 / model M12.
 
 The real runner runs, unmodified, on a virtual-time asyncio loop with
-  * a fake transport (`SimDispatcher`, subclass of the real `EngineDispatcher`; the real
-    `assign_sequence_number` is used) whose connect/send outcomes and latencies are dictated by a choice
+  * the real `EngineDispatcher.send_async` / `assign_sequence_number` (`SimDispatcher` only replaces the
+    connection set-up and the websocket RPC client underneath: `_rpc_client.other.dispatch_message_async`
+    raises RpcChannelClosedException / ConnectionClosedError or answers an RpcResponse); the sequence number
+    of every attempt is read from the serialized message on the wire; outcomes and latencies are dictated by a choice
     sequence; the transport is an ordered channel like the production websocket RPC (requests are
     processed, and responses/failures delivered, in send order),
   * a fake message builder producing real `engine_messages` objects,
@@ -179,6 +181,7 @@ class Sim:
         self.result: Result | None = None
         self.fault_until = fault_until
         self.handler_of: dict[Any, int] = {}
+        self.sending: dict[Any, Any] = {}
 
     # ---- logging -------------------------------------------------------------------
     def log(self, tok: str) -> None:
@@ -437,9 +440,26 @@ def _dispatcher_class():
     from openpectus.protocol.engine_dispatcher import EngineDispatcher
     from openpectus.protocol.exceptions import ProtocolException, ProtocolNetworkException
     import openpectus.protocol.messages as M
+    from openpectus.protocol.serialization import serialize
+    from fastapi_websocket_rpc.rpc_methods import RpcResponse
+    from fastapi_websocket_rpc.rpc_channel import RpcChannelClosedException
+    from websockets.exceptions import ConnectionClosedError
+    import json
+
+    class _Other:
+        def __init__(self, disp):
+            self._disp = disp
+
+        async def dispatch_message_async(self, message_json: dict):
+            return await self._disp._wire_call(message_json)
+
+    class _Rpc:
+        def __init__(self, disp):
+            self.other = _Other(disp)
 
     class SimDispatcher(EngineDispatcher):
-        """Ordered fallible channel.  connect/send outcomes come from the choice sequence."""
+        """The real dispatcher (`send_async`, `assign_sequence_number`) over a simulated websocket RPC client:
+        an ordered fallible channel whose connect / call outcomes come from the choice sequence."""
 
         def __init__(self, sim: Sim, builder):
             opts = {"uod_name": "u", "uod_author_name": "a", "uod_author_email": "e", "uod_filename": "f",
@@ -460,7 +480,7 @@ def _dispatcher_class():
                 raise ProtocolNetworkException("sim connect failed")
             if self._engine_id is None:
                 self._engine_id = "E"
-            self._rpc_client = object()  # type: ignore
+            self._rpc_client = _Rpc(self)  # type: ignore
             self.broken = False
             sim.log("C1")
 
@@ -477,15 +497,23 @@ def _dispatcher_class():
             self._pump()
 
         async def send_async(self, message):
-            # same prelude as the real send_async
-            assert self._rpc_client is not None, "Cannot send when rpc_client is None"
-            if self._engine_id is None:
-                raise ProtocolException("Engine did not have engine_id yet")
-            message.engine_id = self._engine_id
-            self.assign_sequence_number(message)
+            # the REAL EngineDispatcher.send_async runs (engine_id, assign_sequence_number, serialize, error
+            # mapping); only the websocket RPC call underneath it is simulated (`_wire_call`)
+            self.sim.sending[asyncio.current_task()] = message
+            try:
+                return await super().send_async(message)
+            finally:
+                self.sim.sending.pop(asyncio.current_task(), None)
+
+        async def _wire_call(self, message_json: dict):
+            """Stands for `self._rpc_client.other.dispatch_message_async(message_json=...)`."""
             sim = self.sim
+            message = sim.sending[asyncio.current_task()]
             i = sim.mid(message)
-            seq = sim.note_seq(message)
+            seq = int(message_json["sequence_number"])      # what goes over the wire in this attempt
+            l = sim.seqs.setdefault(i, [])
+            if not l or l[-1] != seq:
+                l.append(seq)
             sim.log(f"S{i}:{seq}")
             now = sim.loop.time()
             if self.broken:
@@ -534,8 +562,11 @@ def _dispatcher_class():
                 sim.log(f"Z{i}")
                 raise
             if not ok:
-                raise ProtocolNetworkException("sim send failed")
-            return M.SuccessMessage()
+                # both exception types the real send_async maps to ProtocolNetworkException
+                if entry["att"] % 2 == 0:
+                    raise RpcChannelClosedException("sim channel closed")
+                raise ConnectionClosedError(None, None)
+            return RpcResponse(result=json.dumps(serialize(M.SuccessMessage())), result_type=None)
 
         def _arm(self):
             if self._pump_handle is not None:
